@@ -51,7 +51,7 @@ fn check_grows(before: &[(String, Vec<u8>)], after: &[(String, Vec<u8>)]) {
     }
 }
 
-/// params: [k orders, symbolic values in the second document]
+/// params: [k orders, symbolic values in the second document, 1 = stop after the first meld]
 pub fn content_addressed() {
     let k = sym::param(0) as usize;
     let a = Rep::new();
@@ -86,6 +86,11 @@ pub fn content_addressed() {
     for (key, v) in &s2 {
         let other = t1.iter().find(|(k2, _)| k2 == key).expect("an item was not copied by meld");
         assert!(other.1 == *v, "an item has different bytes on the replica that received it");
+    }
+    if sym::param(2) != 0 {
+        // short variant (used with deviating hash iteration orders): ends after the first meld
+        sym::reach(1);
+        return;
     }
     // relay: a third replica melds from b, which holds a's blocks only as loaded from storage
     {
